@@ -72,7 +72,6 @@ PROPS = {
             {"kind": "verus", "unit": "setlookup"},
             {"kind": "verus", "unit": "tabhash"},
             {"kind": "verus", "unit": "mapeq"},
-            {"kind": "verus", "unit": "seqstr"},
         ],
         "unreached": [
             "the remaining bulk operations that rebuild the table (clear, update_from_keys, dyn_new / to_generator towers)",
